@@ -9,7 +9,8 @@ TIER="${3:-quick}"; bad=0
 BIN="$SIM_TARGET_DIR/release/simcheck"
 for s in $(seq "$1" "$2"); do
   for p in C01 C02 C03 C04 C05 C06 C09 C10 C11 C12 C13 C20; do
-    out=$(VERIF_SEED=$s "$BIN" run --property $p --tier $TIER 2>&1); rc=$?
+    out=$(VERIF_SEED=$s "$BIN" run --property $p --tier $TIER ${SOAK_MAX_SECONDS:+--max-seconds $SOAK_MAX_SECONDS} 2>&1); rc=$?
+    echo "$out" | tail -1
     if [ $rc -ne 0 ]; then bad=$((bad+1)); echo "SOAK seed=$s $p rc=$rc"; echo "$out" | grep -E "^violation|VIOLATION" | cut -c1-600; fi
   done
   echo "soak: seed $s done (alarms so far: $bad)"
